@@ -14,7 +14,7 @@ RULE = ("all 19 algorithms x tie-heavy and generic inputs of the C01/C03/C05 cla
         "shuffled string names, names+valueof with integer names disjoint from the values, dict with integer names overlapping the value range, names+valueof strings); "
         "non-trivial = >= 3 items, >= 2 bins; distinct on (algorithm, config, size, sorted values)")
 ASSUMPTIONS = ["integer values (ndarray presentation needs them)", "bin-completion with names is the open finding KF-bc-names"]
-FLOORS = {"quick": {"distinct_nontrivial": 2000}, "thorough": {"distinct_nontrivial": 20000}}
+FLOORS = {"quick": {"distinct_nontrivial": 800}, "thorough": {"distinct_nontrivial": 4000}}
 PRES = ("list", "array", "dict_str", "names_int", "dict_int_overlap", "names_str")
 
 
